@@ -261,10 +261,12 @@ def random_correspondence(ctx, res, programs, max_keys=5000, keep_runs=True, cto
     """See module docstring.  Designs on which the real constructor needs more than
     `ctor_limit` seconds (its `sum_combination_products` loop visits every
     permutation) are counted as "real-too-slow" and not compared.
-    For designs inside the proved fragment (Frag.frag0) with at most `thm_keys`
-    keys the executable statements of the theorems of Properties/C04-C06
-    (sound / injective / complete against Sem.all_valid / count) are evaluated on
-    the model: rec["thm"] = ("frag0", nkeys, sound, inj, complete, count) | ("outside",) | ("big", n)."""
+    For designs inside the proved fragment (Frag.frag1, which contains Frag.frag0) with at most
+    `thm_keys` keys the executable statements of the theorems of Properties/C04-C06
+    (sound / injective / complete against Sem.all_valid / #accepted = #valid / possible_keys = #valid
+    when nothing is rejected) are evaluated on the model:
+    rec["thm"] = ("frag", nkeys, sound, inj, complete, accepted_count, count, in_frag0, rejection_free, naccepted)
+               | ("outside",) | ("big", n, in_frag0) | ("refused", in_frag0)  (show_errors() fails)."""
     recs = []
     lines = []
     for program in programs:
@@ -304,8 +306,8 @@ def random_correspondence(ctx, res, programs, max_keys=5000, keep_runs=True, cto
         m_all = parse_all(outs[rec["line_idx"] + 1])
         t = outs[rec["line_idx"] + 2]
         rec["thm"] = tuple(_canon(common.parse_sexp(t)[0])) if not t.startswith("!") else ("model-crash", t)
-        if rec["thm"][0] == "frag0":
-            res.layer("L8-theorem-statements", all(x is True for x in rec["thm"][2:]))
+        if rec["thm"][0] == "frag":
+            res.layer("L8-theorem-statements", all(x is True for x in rec["thm"][2:7]))
         rec["enum_model"] = m_enum
         r_en = rec["r_en"]
         if m_enum[0] == "model-crash" or m_all[0] == "model-crash":
